@@ -226,6 +226,7 @@ def write_evidence(pid, tier, seed, meta, results, known_hits, violations, wall,
                'functions': u.funcs if u else [], 'enforced': u.getlist('enforce') if u else [], 'replaced_by_contract': u.getlist('replace') if u else [],
                'assumed': u.get('assumed', '') if u else '', 'anchors': u.get('anchors', '') if u else '',
                'failed': [{'obligation': o['name'], 'cbmc': o['id'], 'description': o['description']} for o in r.failed],
+               'generator': {k: v for k, v in (u.gen_meta or {}).items() if k != 'functions'} if u else {},
                'by_class': {}}
         for o in r.obligations:
             ent['by_class'][o['class']] = ent['by_class'].get(o['class'], 0) + 1
